@@ -18,7 +18,10 @@ def pin_block_validate_read : List Step := [
   ⟨.check, "verify_kernel_lock_heights", "self.verify_kernel_lock_heights()", "", []⟩,
   ⟨.okFinal, "", "()", "", []⟩
 ]
-theorem block_validate_read_pinned : block_validate_read.parseError = none ∧ block_validate_read.steps = pin_block_validate_read := ⟨rfl, rfl⟩
+/-- reviewed `let`s / assignments that feed a guard of `Block::validate_read (core/src/core/block.rs)` -/
+def pin_lets_block_validate_read : List LetRec := [
+]
+theorem block_validate_read_pinned : block_validate_read.parseError = none ∧ block_validate_read.steps = pin_block_validate_read ∧ block_validate_read.lets = pin_lets_block_validate_read := ⟨rfl, rfl, rfl⟩
 
 /-- reviewed shape of `Block::validate (core/src/core/block.rs)` -/
 def pin_block_validate : List Step := [
@@ -30,7 +33,10 @@ def pin_block_validate : List Step := [
   ⟨.check, "verify_kernel_sums", "self.verify_kernel_sums(self.header.overage(), self.block_kernel_offset($0.clone())?)", "", []⟩,
   ⟨.okFinal, "", "()", "", []⟩
 ]
-theorem block_validate_pinned : block_validate.parseError = none ∧ block_validate.steps = pin_block_validate := ⟨rfl, rfl⟩
+/-- reviewed `let`s / assignments that feed a guard of `Block::validate (core/src/core/block.rs)` -/
+def pin_lets_block_validate : List LetRec := [
+]
+theorem block_validate_pinned : block_validate.parseError = none ∧ block_validate.steps = pin_block_validate ∧ block_validate.lets = pin_lets_block_validate := ⟨rfl, rfl, rfl⟩
 
 /-- reviewed shape of `Block::verify_coinbase (core/src/core/block.rs)` -/
 def pin_block_verify_coinbase : List Step := [
@@ -43,14 +49,26 @@ def pin_block_verify_coinbase : List Step := [
   ⟨.fail, "CoinbaseSumMismatch", "Error::CoinbaseSumMismatch", "", ["($9 != $7)"]⟩,
   ⟨.okFinal, "", "()", "", []⟩
 ]
-theorem block_verify_coinbase_pinned : block_verify_coinbase.parseError = none ∧ block_verify_coinbase.steps = pin_block_verify_coinbase := ⟨rfl, rfl⟩
+/-- reviewed `let`s / assignments that feed a guard of `Block::verify_coinbase (core/src/core/block.rs)` -/
+def pin_lets_block_verify_coinbase : List LetRec := [
+  ⟨["$3"], "kernels", "self.body.kernels.iter().filter(|..|{..}).collect()", []⟩,
+  ⟨["$4"], "static_secp_instance", "static_secp_instance()", []⟩,
+  ⟨["$5"], "lock", "$4.lock()", []⟩,
+  ⟨["$6"], "commit_value", "$5.commit_value(reward(self.total_fees()))?", []⟩,
+  ⟨["$7"], "commit_sum", "$5.commit_sum(map_vec!(..), [$6])?", []⟩,
+  ⟨["$9"], "commit_sum", "$5.commit_sum($3.iter().map(|..|{..}).collect(), [])?", []⟩
+]
+theorem block_verify_coinbase_pinned : block_verify_coinbase.parseError = none ∧ block_verify_coinbase.steps = pin_block_verify_coinbase ∧ block_verify_coinbase.lets = pin_lets_block_verify_coinbase := ⟨rfl, rfl, rfl⟩
 
 /-- reviewed shape of `Block::verify_kernel_lock_heights (core/src/core/block.rs)` -/
 def pin_block_verify_kernel_lock_heights : List Step := [
   ⟨.fail, "KernelLockHeight", "Error::KernelLockHeight($1)", "", ["for self.kernels()", "$0.features ~ KernelFeatures::HeightLocked{lock_height: _, ..}", "($1 > self.header.height)"]⟩,
   ⟨.okFinal, "", "()", "", []⟩
 ]
-theorem block_verify_kernel_lock_heights_pinned : block_verify_kernel_lock_heights.parseError = none ∧ block_verify_kernel_lock_heights.steps = pin_block_verify_kernel_lock_heights := ⟨rfl, rfl⟩
+/-- reviewed `let`s / assignments that feed a guard of `Block::verify_kernel_lock_heights (core/src/core/block.rs)` -/
+def pin_lets_block_verify_kernel_lock_heights : List LetRec := [
+]
+theorem block_verify_kernel_lock_heights_pinned : block_verify_kernel_lock_heights.parseError = none ∧ block_verify_kernel_lock_heights.steps = pin_block_verify_kernel_lock_heights ∧ block_verify_kernel_lock_heights.lets = pin_lets_block_verify_kernel_lock_heights := ⟨rfl, rfl, rfl⟩
 
 /-- reviewed shape of `Block::verify_nrd_kernels_for_header_version (core/src/core/block.rs)` -/
 def pin_block_verify_nrd_kernels_for_header_version : List Step := [
@@ -59,7 +77,10 @@ def pin_block_verify_nrd_kernels_for_header_version : List Step := [
   ⟨.fail, "NRDKernelPreHF3", "Error::NRDKernelPreHF3", "", ["self.kernels().iter().any(|..|{..})", "(self.header.version < HeaderVersion(4))"]⟩,
   ⟨.okFinal, "", "()", "", []⟩
 ]
-theorem block_verify_nrd_kernels_for_header_version_pinned : block_verify_nrd_kernels_for_header_version.parseError = none ∧ block_verify_nrd_kernels_for_header_version.steps = pin_block_verify_nrd_kernels_for_header_version := ⟨rfl, rfl⟩
+/-- reviewed `let`s / assignments that feed a guard of `Block::verify_nrd_kernels_for_header_version (core/src/core/block.rs)` -/
+def pin_lets_block_verify_nrd_kernels_for_header_version : List LetRec := [
+]
+theorem block_verify_nrd_kernels_for_header_version_pinned : block_verify_nrd_kernels_for_header_version.parseError = none ∧ block_verify_nrd_kernels_for_header_version.steps = pin_block_verify_nrd_kernels_for_header_version ∧ block_verify_nrd_kernels_for_header_version.lets = pin_lets_block_verify_nrd_kernels_for_header_version := ⟨rfl, rfl, rfl⟩
 
 /-- reviewed shape of `<UntrustedBlockHeader as Readable>::read (core/src/core/block.rs)` -/
 def pin_untrusted_header_read : List Step := [
@@ -71,7 +92,13 @@ def pin_untrusted_header_read : List Step := [
   ⟨.fail, "CorruptedData", "ser::Error::CorruptedData", "", ["($4 > (global::max_block_weight() * ($1.height + 1)))"]⟩,
   ⟨.okFinal, "", "UntrustedBlockHeader($1)", "", []⟩
 ]
-theorem untrusted_header_read_pinned : untrusted_header_read.parseError = none ∧ untrusted_header_read.steps = pin_untrusted_header_read := ⟨rfl, rfl⟩
+/-- reviewed `let`s / assignments that feed a guard of `<UntrustedBlockHeader as Readable>::read (core/src/core/block.rs)` -/
+def pin_lets_untrusted_header_read : List LetRec := [
+  ⟨["$1"], "read_block_header", "read_block_header($0)?", []⟩,
+  ⟨["$2"], "get_future_time_limit", "global::get_future_time_limit()", []⟩,
+  ⟨["$4"], "weight_by_iok", "TransactionBody::weight_by_iok(0, $1.output_mmr_count(), $1.kernel_mmr_count())", []⟩
+]
+theorem untrusted_header_read_pinned : untrusted_header_read.parseError = none ∧ untrusted_header_read.steps = pin_untrusted_header_read ∧ untrusted_header_read.lets = pin_lets_untrusted_header_read := ⟨rfl, rfl, rfl⟩
 
 /-- reviewed shape of `<UntrustedBlock as Readable>::read (core/src/core/block.rs)` -/
 def pin_untrusted_block_read : List Step := [
@@ -81,7 +108,10 @@ def pin_untrusted_block_read : List Step := [
   ⟨.check, "validate_read", "$2.validate_read(Weighting::AsBlock).map_err(|..|{..})", "CorruptedData", []⟩,
   ⟨.okFinal, "", "UntrustedBlock($4)", "", []⟩
 ]
-theorem untrusted_block_read_pinned : untrusted_block_read.parseError = none ∧ untrusted_block_read.steps = pin_untrusted_block_read := ⟨rfl, rfl⟩
+/-- reviewed `let`s / assignments that feed a guard of `<UntrustedBlock as Readable>::read (core/src/core/block.rs)` -/
+def pin_lets_untrusted_block_read : List LetRec := [
+]
+theorem untrusted_block_read_pinned : untrusted_block_read.parseError = none ∧ untrusted_block_read.steps = pin_untrusted_block_read ∧ untrusted_block_read.lets = pin_lets_untrusted_block_read := ⟨rfl, rfl, rfl⟩
 
 /-- reviewed shape of `TransactionBody::validate_read (core/src/core/transaction.rs)` -/
 def pin_body_validate_read : List Step := [
@@ -91,7 +121,10 @@ def pin_body_validate_read : List Step := [
   ⟨.check, "verify_cut_through", "self.verify_cut_through()", "", []⟩,
   ⟨.okFinal, "", "()", "", []⟩
 ]
-theorem body_validate_read_pinned : body_validate_read.parseError = none ∧ body_validate_read.steps = pin_body_validate_read := ⟨rfl, rfl⟩
+/-- reviewed `let`s / assignments that feed a guard of `TransactionBody::validate_read (core/src/core/transaction.rs)` -/
+def pin_lets_body_validate_read : List LetRec := [
+]
+theorem body_validate_read_pinned : body_validate_read.parseError = none ∧ body_validate_read.steps = pin_body_validate_read ∧ body_validate_read.lets = pin_lets_body_validate_read := ⟨rfl, rfl, rfl⟩
 
 /-- reviewed shape of `TransactionBody::validate (core/src/core/transaction.rs)` -/
 def pin_body_validate : List Step := [
@@ -102,7 +135,10 @@ def pin_body_validate : List Step := [
   ⟨.check, "batch_sig_verify", "TxKernel::batch_sig_verify(&self.kernels)", "", []⟩,
   ⟨.okFinal, "", "()", "", []⟩
 ]
-theorem body_validate_pinned : body_validate.parseError = none ∧ body_validate.steps = pin_body_validate := ⟨rfl, rfl⟩
+/-- reviewed `let`s / assignments that feed a guard of `TransactionBody::validate (core/src/core/transaction.rs)` -/
+def pin_lets_body_validate : List LetRec := [
+]
+theorem body_validate_pinned : body_validate.parseError = none ∧ body_validate.steps = pin_body_validate ∧ body_validate.lets = pin_lets_body_validate := ⟨rfl, rfl, rfl⟩
 
 /-- reviewed shape of `TransactionBody::verify_weight (core/src/core/transaction.rs)` -/
 def pin_body_verify_weight : List Step := [
@@ -110,7 +146,11 @@ def pin_body_verify_weight : List Step := [
   ⟨.fail, "TooHeavy", "Error::TooHeavy", "", ["(self.weight() > $3)"]⟩,
   ⟨.okFinal, "", "()", "", []⟩
 ]
-theorem body_verify_weight_pinned : body_verify_weight.parseError = none ∧ body_verify_weight.steps = pin_body_verify_weight := ⟨rfl, rfl⟩
+/-- reviewed `let`s / assignments that feed a guard of `TransactionBody::verify_weight (core/src/core/transaction.rs)` -/
+def pin_lets_body_verify_weight : List LetRec := [
+  ⟨["$3"], "<match>", "<match>", []⟩
+]
+theorem body_verify_weight_pinned : body_verify_weight.parseError = none ∧ body_verify_weight.steps = pin_body_verify_weight ∧ body_verify_weight.lets = pin_lets_body_verify_weight := ⟨rfl, rfl, rfl⟩
 
 /-- reviewed shape of `TransactionBody::verify_no_nrd_duplicates (core/src/core/transaction.rs)` -/
 def pin_body_verify_no_nrd_duplicates : List Step := [
@@ -123,7 +163,13 @@ def pin_body_verify_no_nrd_duplicates : List Step := [
   ⟨.okFinal, "", "()", "", ["($3 == $4)"]⟩,
   ⟨.fail, "InvalidNRDRelativeHeight", "Error::InvalidNRDRelativeHeight", "", ["!(($3 == $4))"]⟩
 ]
-theorem body_verify_no_nrd_duplicates_pinned : body_verify_no_nrd_duplicates.parseError = none ∧ body_verify_no_nrd_duplicates.steps = pin_body_verify_no_nrd_duplicates := ⟨rfl, rfl⟩
+/-- reviewed `let`s / assignments that feed a guard of `TransactionBody::verify_no_nrd_duplicates (core/src/core/transaction.rs)` -/
+def pin_lets_body_verify_no_nrd_duplicates : List LetRec := [
+  ⟨["$2"], "kernels", "self.kernels.iter().filter(|..|{..}).map(|..|{..}).collect()", []⟩,
+  ⟨["$3"], "len", "$2.len()", []⟩,
+  ⟨["$4"], "len", "$2.len()", []⟩
+]
+theorem body_verify_no_nrd_duplicates_pinned : body_verify_no_nrd_duplicates.parseError = none ∧ body_verify_no_nrd_duplicates.steps = pin_body_verify_no_nrd_duplicates ∧ body_verify_no_nrd_duplicates.lets = pin_lets_body_verify_no_nrd_duplicates := ⟨rfl, rfl, rfl⟩
 
 /-- reviewed shape of `TransactionBody::verify_sorted (core/src/core/transaction.rs)` -/
 def pin_body_verify_sorted : List Step := [
@@ -132,14 +178,21 @@ def pin_body_verify_sorted : List Step := [
   ⟨.check, "verify_sorted_and_unique", "self.kernels.verify_sorted_and_unique()", "", []⟩,
   ⟨.okFinal, "", "()", "", []⟩
 ]
-theorem body_verify_sorted_pinned : body_verify_sorted.parseError = none ∧ body_verify_sorted.steps = pin_body_verify_sorted := ⟨rfl, rfl⟩
+/-- reviewed `let`s / assignments that feed a guard of `TransactionBody::verify_sorted (core/src/core/transaction.rs)` -/
+def pin_lets_body_verify_sorted : List LetRec := [
+]
+theorem body_verify_sorted_pinned : body_verify_sorted.parseError = none ∧ body_verify_sorted.steps = pin_body_verify_sorted ∧ body_verify_sorted.lets = pin_lets_body_verify_sorted := ⟨rfl, rfl, rfl⟩
 
 /-- reviewed shape of `TransactionBody::verify_cut_through (core/src/core/transaction.rs)` -/
 def pin_body_verify_cut_through : List Step := [
   ⟨.fail, "CutThrough", "Error::CutThrough", "", ["for $0.windows(2)", "($1[0] == $1[1])"]⟩,
   ⟨.okFinal, "", "()", "", []⟩
 ]
-theorem body_verify_cut_through_pinned : body_verify_cut_through.parseError = none ∧ body_verify_cut_through.steps = pin_body_verify_cut_through := ⟨rfl, rfl⟩
+/-- reviewed `let`s / assignments that feed a guard of `TransactionBody::verify_cut_through (core/src/core/transaction.rs)` -/
+def pin_lets_body_verify_cut_through : List LetRec := [
+  ⟨["$0"], "inputs_outputs_committed", "self.inputs_outputs_committed()", []⟩
+]
+theorem body_verify_cut_through_pinned : body_verify_cut_through.parseError = none ∧ body_verify_cut_through.steps = pin_body_verify_cut_through ∧ body_verify_cut_through.lets = pin_lets_body_verify_cut_through := ⟨rfl, rfl, rfl⟩
 
 /-- reviewed shape of `TransactionBody::verify_features (core/src/core/transaction.rs)` -/
 def pin_body_verify_features : List Step := [
@@ -147,7 +200,10 @@ def pin_body_verify_features : List Step := [
   ⟨.check, "verify_kernel_features", "self.verify_kernel_features()", "", []⟩,
   ⟨.okFinal, "", "()", "", []⟩
 ]
-theorem body_verify_features_pinned : body_verify_features.parseError = none ∧ body_verify_features.steps = pin_body_verify_features := ⟨rfl, rfl⟩
+/-- reviewed `let`s / assignments that feed a guard of `TransactionBody::verify_features (core/src/core/transaction.rs)` -/
+def pin_lets_body_verify_features : List LetRec := [
+]
+theorem body_verify_features_pinned : body_verify_features.parseError = none ∧ body_verify_features.steps = pin_body_verify_features ∧ body_verify_features.lets = pin_lets_body_verify_features := ⟨rfl, rfl, rfl⟩
 
 /-- reviewed shape of `TransactionBody::verify_output_features (core/src/core/transaction.rs)` -/
 def pin_body_verify_output_features : List Step := [
@@ -155,7 +211,10 @@ def pin_body_verify_output_features : List Step := [
   ⟨.fail, "InvalidOutputFeatures", "Error::InvalidOutputFeatures", "", ["self.outputs.iter().any(|..|{..})"]⟩,
   ⟨.okFinal, "", "()", "", []⟩
 ]
-theorem body_verify_output_features_pinned : body_verify_output_features.parseError = none ∧ body_verify_output_features.steps = pin_body_verify_output_features := ⟨rfl, rfl⟩
+/-- reviewed `let`s / assignments that feed a guard of `TransactionBody::verify_output_features (core/src/core/transaction.rs)` -/
+def pin_lets_body_verify_output_features : List LetRec := [
+]
+theorem body_verify_output_features_pinned : body_verify_output_features.parseError = none ∧ body_verify_output_features.steps = pin_body_verify_output_features ∧ body_verify_output_features.lets = pin_lets_body_verify_output_features := ⟨rfl, rfl, rfl⟩
 
 /-- reviewed shape of `TransactionBody::verify_kernel_features (core/src/core/transaction.rs)` -/
 def pin_body_verify_kernel_features : List Step := [
@@ -163,7 +222,10 @@ def pin_body_verify_kernel_features : List Step := [
   ⟨.fail, "InvalidKernelFeatures", "Error::InvalidKernelFeatures", "", ["self.kernels.iter().any(|..|{..})"]⟩,
   ⟨.okFinal, "", "()", "", []⟩
 ]
-theorem body_verify_kernel_features_pinned : body_verify_kernel_features.parseError = none ∧ body_verify_kernel_features.steps = pin_body_verify_kernel_features := ⟨rfl, rfl⟩
+/-- reviewed `let`s / assignments that feed a guard of `TransactionBody::verify_kernel_features (core/src/core/transaction.rs)` -/
+def pin_lets_body_verify_kernel_features : List LetRec := [
+]
+theorem body_verify_kernel_features_pinned : body_verify_kernel_features.parseError = none ∧ body_verify_kernel_features.steps = pin_body_verify_kernel_features ∧ body_verify_kernel_features.lets = pin_lets_body_verify_kernel_features := ⟨rfl, rfl, rfl⟩
 
 /-- reviewed shape of `Transaction::validate_read (core/src/core/transaction.rs)` -/
 def pin_tx_validate_read : List Step := [
@@ -171,7 +233,10 @@ def pin_tx_validate_read : List Step := [
   ⟨.check, "verify_features", "self.body.verify_features()", "", []⟩,
   ⟨.okFinal, "", "()", "", []⟩
 ]
-theorem tx_validate_read_pinned : tx_validate_read.parseError = none ∧ tx_validate_read.steps = pin_tx_validate_read := ⟨rfl, rfl⟩
+/-- reviewed `let`s / assignments that feed a guard of `Transaction::validate_read (core/src/core/transaction.rs)` -/
+def pin_lets_tx_validate_read : List LetRec := [
+]
+theorem tx_validate_read_pinned : tx_validate_read.parseError = none ∧ tx_validate_read.steps = pin_tx_validate_read ∧ tx_validate_read.lets = pin_lets_tx_validate_read := ⟨rfl, rfl, rfl⟩
 
 /-- reviewed shape of `Transaction::validate (core/src/core/transaction.rs)` -/
 def pin_tx_validate : List Step := [
@@ -180,6 +245,9 @@ def pin_tx_validate : List Step := [
   ⟨.check, "verify_kernel_sums", "self.verify_kernel_sums(self.overage(), self.offset.clone())", "", []⟩,
   ⟨.okFinal, "", "()", "", []⟩
 ]
-theorem tx_validate_pinned : tx_validate.parseError = none ∧ tx_validate.steps = pin_tx_validate := ⟨rfl, rfl⟩
+/-- reviewed `let`s / assignments that feed a guard of `Transaction::validate (core/src/core/transaction.rs)` -/
+def pin_lets_tx_validate : List LetRec := [
+]
+theorem tx_validate_pinned : tx_validate.parseError = none ∧ tx_validate.steps = pin_tx_validate ∧ tx_validate.lets = pin_lets_tx_validate := ⟨rfl, rfl, rfl⟩
 
 end GV.Props.XlateShapeCorePins
